@@ -309,6 +309,91 @@ func scenario(phase string, cs []cause, bound int) *vx.Scenario {
 	return sc
 }
 
+// leaveAtOnce: the client sends DISCONNECT for the namespace right behind its CONNECT (or the application kicks
+// every socket of the namespace at that moment). Each packet is handled on its own goroutine, so the close can
+// land anywhere in the admission: before the socket exists (the connection is then closed as a whole), while it
+// is being registered / joined to its own room, or after. Whatever the interleaving, the client has left: at the
+// end no socket of it is listed or in a room, and a socket whose connection handler ran got its disconnect once.
+func leaveAtOnce(how string, bound int) *vx.Scenario {
+	sc := &vx.Scenario{Name: "leave-right-behind-the-CONNECT/" + how, Bound: bound, Horizon: 3 * time.Minute, Shards: 4}
+	sc.Body = func(e *vsched.Exec) func() vx.Result {
+		srv := sio.NewServer(nil)
+		var v vsched.Var
+		type seen struct {
+			id       string
+			log      []string
+			handlers int
+		}
+		var socks []*seen
+		// the lifecycle handlers are registered in a middleware, i.e. before the socket can be connected at all (the
+		// connection handler runs asynchronously after the CONNECT reply: its lateness is a finding of its own)
+		srv.Of("/").Use(func(s sio.ServerSocket, h *sio.Handshake) any {
+			l := &seen{id: string(s.ID())}
+			v.Do(func() { socks = append(socks, l) })
+			s.OnDisconnecting(func(r sio.Reason) { v.Do(func() { l.log = append(l.log, "disconnecting:"+string(r)) }) })
+			s.OnDisconnect(func(r sio.Reason) { v.Do(func() { l.log = append(l.log, "disconnect:"+string(r)) }) })
+			return nil
+		})
+		srv.Of("/").OnConnection(func(s sio.ServerSocket) {
+			v.Do(func() {
+				for _, l := range socks {
+					if l.id == string(s.ID()) {
+						l.handlers++
+					}
+				}
+			})
+		})
+		f := vrig.NewFakeEIO(srv, "c06")
+		f.In("0")
+		switch how {
+		case "client-DISCONNECT-frame":
+			f.In("1")
+		case "DisconnectSockets(false)":
+			srv.Of("/").DisconnectSockets(false)
+		}
+		vrig.Settle(2 * time.Second)
+		listedAtEnd := len(srv.Of("/").Sockets())
+		return func() vx.Result {
+			var r vx.Result
+			var out []string
+			for _, l := range socks {
+				out = append(out, fmt.Sprintf("%s(connection handler ran %d times)", strings.Join(l.log, ","), l.handlers))
+			}
+			rooms, sids, _ := adapter.VerifDump(srv.Of("/").Adapter())
+			replied := f.HasPrefix("0{")
+			r.Outcome = fmt.Sprintf("closed=%v listed=%d replied=%v socks=%v", f.Closed > 0, listedAtEnd, replied, out)
+			ctx := fmt.Sprintf("%s right behind the CONNECT: connection closed %d time(s); %d socket(s) listed at the end, adapter rooms=%v sids=%v; what the application saw of its sockets: %v; frames to the client %v", how, f.Closed, listedAtEnd, rooms, sids, out, f.Texts())
+			key := func(what string) string { return "sio: " + what + " (leave right behind the CONNECT)" }
+			for _, l := range socks {
+				n := 0
+				for _, x := range l.log {
+					if strings.HasPrefix(x, "disconnect:") {
+						n++
+					}
+				}
+				if n > 1 {
+					r.Violate(key("disconnect reported more than once"), "%s", ctx)
+				}
+			}
+			// a server-side kick that comes before the socket is listed finds nobody, and the socket then simply
+			// stays (correct); the client's own DISCONNECT always ends the membership, or the whole connection
+			if how == "client-DISCONNECT-frame" || f.Closed > 0 {
+				if listedAtEnd != 0 || len(rooms) != 0 || len(sids) != 0 {
+					r.Violate(key("the client has left but its socket is still on the server"), "%s", ctx)
+				}
+				for _, l := range socks {
+					connected := l.handlers > 0 || (replied && strings.Contains(strings.Join(f.Texts(), " "), l.id))
+					if connected && !strings.Contains(strings.Join(l.log, ","), "disconnect:") {
+						r.Violate(key("disconnect never reported for a socket that had connected"), "%s", ctx)
+					}
+				}
+			}
+			return r
+		}
+	}
+	return sc
+}
+
 func leftovers(r *vx.Result, key func(string) string, w *world, f *vrig.FakeEIO, l *sockLog, names []string) {
 	nsp := w.srv.Of(l.ns)
 	for _, s := range nsp.Sockets() {
@@ -378,6 +463,7 @@ func scenarios(tier string) []*vx.Scenario {
 			}
 		}
 	}
+	s = append(s, leaveAtOnce("client-DISCONNECT-frame", b1+1), leaveAtOnce("DisconnectSockets(false)", b1+1))
 	s = append(s, r3Scenarios(tier)...)
 	s = append(s, upgradeScenarios(tier)...)
 	return s
